@@ -308,6 +308,10 @@ func TestCheck(t *testing.T) {
 }
 
 func TestReplay(t *testing.T) {
+	if strings.HasPrefix(ev.ReplaySub(), "diff-in-foreign-layout") {
+		ev.ReplayFile(t, "C06", func(_ string, c FCase) error { return checkFormat(c) })
+		return
+	}
 	if strings.HasPrefix(ev.ReplaySub(), "writers") {
 		ev.ReplayFile(t, "C06", func(_ string, c WCase) error { _, err := checkWriters(c); return err })
 		return
